@@ -104,16 +104,16 @@ pub fn audit(prop: &str) -> serde_json::Value {
         "C09" => json!([
           {"class": 1, "topic": "entry paths / variants never driven",
            "covered": "WalMessage variants, FsyncPolicy variants, WalError variants, the pub fns of WalActorHandle, WalStore / WalFileWriter trait fns, WalConfig fields and constructors are ENUMERATED FROM THE SOURCE (build.rs wal_scan) and each is mapped to how it is driven (api_coverage); all three policies run on the real actor against the model (Actor.stepP); the production path ReplicatedShardedState::execute -> set_wal_handle -> write_durable / write_fire_and_forget is driven with the deltas captured through the delta sink (ops GQ); a new variant / fn / field fails the check (C09:coverage:*-not-driven)",
-           "open": "WalStore::exists has no caller in the WAL code; the 5 s ack timeout of write_durable is not driven"},
+           "open": "WalStore::exists has no caller in the WAL code. Session 4: the 5 s ack timeout of write_durable is modelled (Caller, virtual clock) and driven (op GT: group_commit_max_wait 4 s / 4.998 s / 5.002 s / 10 s / 60 s on the paused clock)"},
           {"class": 2, "topic": "input alphabet", "covered": "payload sizes 0..40 and equal sizes, stamps incl. u64::MAX and ties; production-path deltas of SET / DEL / HSET / INCR / multi-key DEL with binary values and a non-ASCII key", "open": "payload CONTENT is C14's subject (every CRDT kind through from_delta)"},
           {"class": 3, "topic": "comparisons at equality", "covered": "size >= max_file_size: thresholds = header + k entries, +-1, and <= header (0, 1, 16); entries_since_sync < group_commit_max_entries: bursts of exactly / more than max_entries (incl. 0 and the default 64 crossed by 300 writers); entries_since_sync > 0: ticks / shutdown with and without unsynced entries; truncate thresholds equal to stamps", "open": ""},
           {"class": 4, "topic": "configuration", "covered": "every WalConfig field the actor reads is generated: fsync_policy (3), max_file_size (0, 1, 16, 17, header+k(+-1), 1 MiB), group_commit_max_entries (0, 1, 2, 3, 8, 64), group_commit_max_wait (0, 200 us, 5 ms); the configuration is built by /repo's own constructors (always_fsync / every_second / default) and, for a quarter of the workloads, passed through serde_json; the constructors' fields and the serde names of the policies are compared with the model's table (CFG / CFGP ops, theorem config_constructors_policy)", "open": "enabled / truncation_check_interval are read by the server start-up code only"},
-          {"class": 5, "topic": "capacity thresholds", "covered": "WAL_CHANNEL_CAPACITY (value scanned from the source): capacity + 44 concurrent write_durable callers (senders block, served in order, batches cut at 64) and one caller flooding the mailbox with fire-and-forget writes (the excess is dropped: the model gets exactly the first CAPACITY)", "open": "pending_acks initial capacity 64 is an allocation hint"},
+          {"class": 5, "topic": "capacity thresholds", "covered": "WAL_CHANNEL_CAPACITY (value scanned from the source): capacity + 44 concurrent write_durable callers (senders block, served in order, batches cut at 64) and one caller flooding the mailbox with fire-and-forget writes (the excess is dropped: the model gets exactly the first CAPACITY)", "open": "pending_acks initial capacity 64 is an allocation hint. Session 4: length-width boundaries nobody configured — durable writes of 2^16+1 and 2^24+1 payload bytes (oracle only), found missing by a seeded 16 MiB reader bound"},
           {"class": 6, "topic": "fault kinds", "covered": "create / append (fail, disk full, torn at every length) / fsync (group commit, closing fsync of rotate, tick, shutdown) / delete failures at every I/O call index, machine dying from a call on, store.list() failing in truncate_before (logged, nothing deleted) and in WalRotator::new (spawn fails), callers cancelled while they wait for their ack, actor task panic reported (C09:actor-panicked)", "open": "open_read / read_all failures inside truncate_before (the file is skipped) are not injected"},
           {"class": 7, "topic": "history shapes", "covered": "1..3 incarnations over one store ended by clean shutdown or machine crash (EverySecond: crash without the final fsync of shutdown), bursts of 1..5 and of 300 messages, ticks / truncations / fire-and-forget in every position of a burst, a failed tick followed by more ticks, second incarnation after truncation, a Shutdown in every position of a burst (observed: handled inside the group-commit wait it does NOT stop the actor — the `return` leaves only the async block — so writes after shutdown() are still accepted and made durable)", "open": "very long runs (thousands of rotations) only in the thorough tier"},
           {"class": 8, "topic": "node-global state", "covered": "one actor per node; the store is shared by successive incarnations (sequence numbering continues, files of earlier incarnations are never re-created: create_never_reuses_existing_name + oracle)", "open": ""},
           {"class": 9, "topic": "observations", "covered": "every ack (result class) with the I/O index at which the caller saw it, the complete call trace, the recovered set (id matched by payload AND stamp) at EVERY crash index, WalActorHandle::fsync_policy(); production path: trace + recovered sets + the instant execute returned", "open": "on the production path the ack itself is not observable (execute only logs a WAL error): compared through the model (op GQ)"},
-          {"class": 10, "topic": "finding signatures", "covered": "no open finding; the oracles are unconditional: C09:ack-ok-lost:<cause> (Always), C09:synced-entry-lost:<policy> (model-free: appended + fsynced stays), C09:production-path:replied-before-durable, C09:create-overwrites-existing-file, C09:actor-panicked, C09:config:*", "open": ""},
+          {"class": 10, "topic": "finding signatures", "covered": "no open finding; the oracles are unconditional: C09:ack-ok-lost:<cause> (Always), C09:synced-entry-lost:<policy> (model-free: appended + fsynced stays), C09:production-path:replied-before-durable, C09:create-overwrites-existing-file, C09:actor-panicked, C09:config:*; session 4: C09:compose:* (every crash image: recover_entries_after succeeds, deltas bit-identical, only written ones, in write order), C09:ack-ok-lost:wide-payload; the synced-entry oracle no longer counts an fsync of a re-created file name (false alarm found by --seed 4)", "open": ""},
           {"class": 11, "topic": "harness fragility", "covered": "source scan failure / unknown name is a violation; the actor's JoinError (panic) is reported instead of ignored; no hard-coded /repo path (taken from harness/Cargo.toml at build time); WAL format and channel capacity come from the crate / the source, not from a hand-set constant", "open": "CODE_SYNCS_BEFORE_DROP / CODE_TICK_SYNCS / CODE_RESTART_REUSES_SEQ in harness/src/main.rs are still hand-set variant switches (a wrong value shows up as a disagreement on the corpus workloads)"}
         ]),
         "C10" => json!([
@@ -121,16 +121,16 @@ pub fn audit(prop: &str) -> serde_json::Value {
           {"class": 2, "topic": "input alphabet", "covered": "raw payloads of 0..40 bytes incl. zero bytes, real deltas, entries appended with a wrong stored checksum, directory names: canonical, alias spellings (upper case, '+', unpadded, over-long), 13 foreign names incl. empty / near-WAL names", "open": "names with '/' or NUL cannot exist in a directory"},
           {"class": 3, "topic": "comparisons at equality", "covered": "every truncation length of every file; length fields at remaining-16 / -15 / -17 / 2^32-16-pos; stamps t and t+1 for recover_entries_after / entries_after; T-1, T, T+1 for truncate_before; rotation thresholds at header + k entries +-1; sequences 2^32-1 / 2^32 / 2^64-1", "open": ""},
           {"class": 4, "topic": "configuration", "covered": "max_file_size 17, exact fits, +-1, 1 MiB; the on-disk constants (magic, version, header size, entry overhead) of the crate are compared with the model's (FMT op)", "open": ""},
-          {"class": 5, "topic": "capacity thresholds", "covered": "u32 length field limits, 2^32 name-width change, u64 sequence overflow (panic observed and modelled as crash)", "open": "payloads >= 4 GiB unreachable"},
+          {"class": 5, "topic": "capacity thresholds", "covered": "u32 length field limits, 2^32 name-width change, u64 sequence overflow (panic observed and modelled as crash)", "open": "payloads >= 4 GiB unreachable. Session 4: entries of 2^16+1 and 2^24+1 payload bytes, a 2500-entry file, 400 entries over 134 files"},
           {"class": 6, "topic": "fault kinds", "covered": "torn header / entry header / payload, bit flips, byte substitutions, constant runs (00 / FF / 55), zero and garbage tails, files cut behind the store's back on the real file system, open_read of a missing file (NotFound), delete of a missing file", "open": "store failures during truncate_before are C09's (delete faults)"},
           {"class": 7, "topic": "history shapes", "covered": "rotator over a pre-populated directory, restarted rotator over what the first left (in memory and on the file system), truncate then recover, all stamp orders of 3 entries", "open": ""},
           {"class": 8, "topic": "node-global state", "covered": "none: the rotator owns its directory", "open": ""},
           {"class": 9, "topic": "observations", "covered": "every field of every recovered entry (stamp, stored checksum, payload bytes), directory listing with file bytes, open file name, deleted count + remaining names, keys of recover_entries_after; which payloads deserialise is now decided by the MODEL's bincode decoder and cross-checked with the real to_delta (de-mismatch)", "open": ""},
-          {"class": 10, "topic": "finding signatures", "covered": "no open finding; classes C10:only-appended:<cause>, C10:files-independent:<damage>, C10:truncate:*, C10:local-store:*", "open": ""},
-          {"class": 11, "topic": "harness fragility", "covered": "local-store runs use a directory under the run's --out and remove it; a directory that cannot be created is a violation, not a skip; source-scan failures are violations", "open": ""}
+          {"class": 10, "topic": "finding signatures", "covered": "two open findings C10:only-appended:crc32-collision:length-field / :wide-damage, identified by CAUSE (the recovered entry validates, same stamp and stored checksum, other length or a differing span > 4 bytes): a foreign entry that does not validate stays C10:only-appended:<damage>:foreign (self-test: checksum compared on 16 bits only); classes C10:files-independent:<damage>, C10:truncate:*, C10:local-store:*, C10:intact:*", "open": ""},
+          {"class": 11, "topic": "harness fragility", "covered": "local-store runs use a directory under the run's --out and remove it; a directory that cannot be created is a violation, not a skip; source-scan failures are violations; session 4: the layout computed from what was appended no longer panics the harness when the files on disk are shorter (a changed rotator); LocalWalStore::list judged against the harness' own read_dir (the model is fed what list() returns)", "open": ""}
         ]),
         _ => json!([
-          {"class": 1, "topic": "entry paths / variants never driven", "covered": "pub fns of SegmentReader / SegmentWriter / CheckpointReader / CheckpointWriter, error enums, GossipMessage and CrdtValue variants enumerated from the source (api_coverage); accessors of opened segments / checkpoints (SH / CH), CheckpointReader::load WITHOUT validate (cl / clx: found to panic), the manager path CheckpointManager::create_checkpoint / load_checkpoint over an object store; the bincode (de)serialiser itself is now modelled byte for byte and compared on every payload (BD / BS)", "open": "zstd (cargo feature off); serde_json of gossip frames stays an abstract codec (round trip checked on the Rust side)"},
+          {"class": 1, "topic": "entry paths / variants never driven", "covered": "pub fns of SegmentReader / SegmentWriter / CheckpointReader / CheckpointWriter, error enums, GossipMessage and CrdtValue variants enumerated from the source (api_coverage); accessors of opened segments / checkpoints (SH / CH), CheckpointReader::load WITHOUT validate (cl / clx: found to panic), the manager path CheckpointManager::create_checkpoint / load_checkpoint over an object store; the bincode (de)serialiser itself is now modelled byte for byte and compared on every payload (BD / BS)", "open": "zstd (cargo feature off). Session 4: serde_json of gossip frames is modelled byte for byte (encoder + canonical decoder, ops JG / JX); every public recovery entry point (recover / recover_with_progress / recover_with_wal) is run over a store with a damaged segment / checkpoint object"},
           {"class": 2, "topic": "input alphabet", "covered": "every CRDT kind and shape, binary / empty / 1 MiB values, unicode / NUL / empty keys; hand-made payloads no serialiser produces: duplicate map keys and set elements, out-of-range variant index / option tag / bool byte, counts and lengths beyond the input, 1294 byte strings around every boundary of the UTF-8 well-formedness table as keys", "open": ""},
           {"class": 3, "topic": "comparisons at equality", "covered": "every truncation length (payloads: every prefix), length / count fields at remaining +-1, 0, 2^32, 2^63, u64::MAX written over every (dense) / sampled position", "open": ""},
           {"class": 4, "topic": "configuration", "covered": "CheckpointConfig::default (compression_enabled, feature off) and ::test through the manager; bincode's configuration is read off the code: DefaultOptions + fixint + allow_trailing_bytes, NO byte limit (modelled: trailing bytes ignored; theorem bincode_cells_bounded is the only bound)", "open": ""},
@@ -138,7 +138,7 @@ pub fn audit(prop: &str) -> serde_json::Value {
           {"class": 6, "topic": "fault kinds", "covered": "truncation, bit flips, 00 / FF substitutions, boundary values in every integer field, constant runs, trailing bytes; damage that REACHES the deserialiser (record / payload byte replaced and the checksums recomputed: sxf / cxf) decoded field by field by both sides; panics of every path are caught and are violations", "open": ""},
           {"class": 7, "topic": "history shapes", "covered": "single images; the crafted embedded-footer segment", "open": "multi-object histories are C11 / C12 / C13"},
           {"class": 8, "topic": "node-global state", "covered": "none", "open": ""},
-          {"class": 9, "topic": "observations", "covered": "canonical text of EVERY field of every decoded value (payload bytes in hex), error classes, header / footer fields through the readers' accessors, CheckpointResult fields; on-disk constants of the crate / the source against the model's writers (FMT)", "open": "gossip byte flips are measured, not judged (no checksum on the wire)"},
+          {"class": 9, "topic": "observations", "covered": "canonical text of EVERY field of every decoded value (payload bytes in hex), error classes, header / footer fields through the readers' accessors, CheckpointResult fields; on-disk constants of the crate / the source against the model's writers (FMT)", "open": "gossip byte flips: compared with the model wherever the document stays canonical, measured elsewhere (no checksum on the wire)"},
           {"class": 10, "topic": "finding signatures", "covered": "no open finding: C14:checkpoint:load-without-validate:panics-on-short-image was repaired (fix: 7df179c), its corpus case must pass and any panic of that path is a VIOLATION again; decoded-different / truncate:decoded stay violations", "open": ""},
           {"class": 11, "topic": "harness fragility", "covered": "which load() variant the code has is probed on every run (and the oracle is unconditional); source-scan failures are violations; no model op for the 1 MiB value (oracle only)", "open": ""}
         ]),
@@ -167,6 +167,15 @@ pub fn report(out: &mut Out, prop: &str) {
                     table.insert(format!("{}::{}", group, n), c.to_string());
                 }
                 None => {
+                    // a NEW public fn of an anchored type that nothing outside its own file calls (non-test code)
+                    // cannot reach the property: recorded, not a violation.  Trait fns, message kinds, enum
+                    // variants, config fields and fns WITH callers in other modules stay violations.
+                    let ext = WAL_FN_EXTERNAL_CALLS.iter().find(|(g, f, _)| *g == group && f == n).map(|(_, _, c)| *c);
+                    if ext == Some(0) {
+                        table.insert(format!("{}::{}", group, n), "NEW public fn without a caller outside its own file (non-test code): cannot reach the property; not driven".into());
+                        out.count("coverage:new-pub-fn-without-external-callers");
+                        continue;
+                    }
                     table.insert(format!("{}::{}", group, n), "UNACCOUNTED".into());
                     let kind = match group {
                         "WalMessage" | "GossipMessage" => "message",
